@@ -59,7 +59,7 @@ Qed.
 (** ---------- C14 / C16: what an ocode's bytes depend on ---------- *)
 
 Definition pos_indep (o : ocode) : bool :=
-  match o with OAlignb _ | OJcc _ _ => false | _ => true end.
+  match o with OAlignb _ | OJcc _ _ _ => false | _ => true end.
 
 Lemma gen_pos_indep m st dol len dol' len' o : pos_indep o = true ->
   gen_ocode E m st dol len o = gen_ocode E m st dol' len' o.
@@ -138,6 +138,60 @@ Proof.
   - apply (HE _ _ _ _ G).
 Qed.
 
+(** C17: which mode an ocode recorded by one statement carries *)
+Definition ocode_mode (o : ocode) : option mode :=
+  match o with OInstr md _ _ | OJcc md _ _ | OJmpFar md _ _ => Some md | _ => None end.
+
+Definition records (s s' : p1state) : Prop :=
+  forall o, In o (ocodes s') -> In o (ocodes s) \/ ocode_mode o = None \/ ocode_mode o = Some (bmode s).
+
+Lemma records_same s s' : ocodes s' = ocodes s -> records s s'.
+Proof. intros H o Ho. left. rewrite <- H. exact Ho. Qed.
+
+Lemma records_push s s1 o : ocodes s1 = ocodes s -> (ocode_mode o = None \/ ocode_mode o = Some (bmode s)) -> records s (push_ocode s1 o).
+Proof. intros H Hm x Hx. cbn [push_ocode ocodes] in Hx. destruct Hx as [<-|Hx]; [right; exact Hm | left; rewrite <- H; exact Hx]. Qed.
+
+Lemma ocodes_with_diag s d : ocodes (with_diag s d) = ocodes s.
+Proof. unfold with_diag. destruct d; reflexivity. Qed.
+
+Lemma mnemonic_records_mode s op ops : records s (do_mnemonic E s op ops).
+Proof.
+  unfold do_mnemonic. destruct (handler_of op) as [h|]; [|apply records_same; reflexivity].
+  repeat match goal with |- records _ (if ?c then _ else _) => destruct c end.
+  - unfold do_data. destruct (data_operands db_operand (sym s) ops) as [vals d]. apply records_push; [cbn [add_loc set_loc ocodes]; apply ocodes_with_diag | left; reflexivity].
+  - unfold do_data. destruct (data_operands dw_operand (sym s) ops) as [vals d]. apply records_push; [cbn [add_loc set_loc ocodes]; apply ocodes_with_diag | left; reflexivity].
+  - unfold do_data. destruct (data_operands dd_operand (sym s) ops) as [vals d]. apply records_push; [cbn [add_loc set_loc ocodes]; apply ocodes_with_diag | left; reflexivity].
+  - unfold do_resb. destruct ops as [|[] [|]]; try (apply records_same; reflexivity).
+    destruct (z <? 0); [apply records_same; reflexivity | apply records_push; [reflexivity | left; reflexivity]].
+  - unfold do_alignb. destruct ops as [|[] [|]]; try (apply records_same; reflexivity).
+    destruct (int32 z <=? 0); [apply records_same; reflexivity | apply records_push; [reflexivity | left; reflexivity]].
+  - unfold do_org. destruct ops as [|[] [|]]; apply records_same; reflexivity.
+  - unfold do_jcc. destruct ops as [|o1 [|]]; try (apply records_same; reflexivity).
+    destruct (eval_top (env_of s) o1) as [e r|]; [|apply records_same; reflexivity].
+    destruct e as [f|z|eh et|eh et|dt jt l r0|dt l r0]; try (apply records_push; [reflexivity | right; reflexivity]).
+    + destruct f; try (apply records_push; [reflexivity | right; reflexivity]).
+      apply records_push; [destruct (sym_has s0 (sym s)); reflexivity | right; reflexivity].
+    + destruct r0 as [r1|]; [|apply records_push; [reflexivity | right; reflexivity]].
+      destruct (get_const l), (get_const r1); destruct (String.eqb op "JMP");
+        try (apply records_push; [reflexivity | first [right; reflexivity | left; reflexivity]]); apply records_same; reflexivity.
+  - unfold do_jcc. destruct ops as [|o1 [|]]; try (apply records_same; reflexivity).
+    destruct (eval_top (env_of s) o1) as [e r|]; [|apply records_same; reflexivity].
+    destruct e as [f|z|eh et|eh et|dt jt l r0|dt l r0]; try (apply records_push; [reflexivity | right; reflexivity]).
+    + destruct f; try (apply records_push; [reflexivity | right; reflexivity]).
+      apply records_push; [destruct (sym_has s0 (sym s)); reflexivity | right; reflexivity].
+    + destruct r0 as [r1|]; [|apply records_push; [reflexivity | right; reflexivity]].
+      destruct (get_const l), (get_const r1); cbn [String.eqb Ascii.eqb Bool.eqb];
+        try (apply records_push; [reflexivity | first [right; reflexivity | left; reflexivity]]); apply records_same; reflexivity.
+  - unfold emit. destruct (kind_known op); [apply records_push; [reflexivity | left; reflexivity] | apply records_same; reflexivity].
+  - unfold emit. destruct (kind_known "RET"); [apply records_push; [reflexivity | left; reflexivity] | apply records_same; reflexivity].
+  - unfold do_int. destruct ops as [|o1 [|]]; try (apply records_same; reflexivity). apply records_push; [reflexivity | left; reflexivity].
+  - apply records_push; [reflexivity | left; reflexivity].
+  - destruct (enc_est E (bmode s) op ops) as [n|]; [|apply records_same; reflexivity].
+    cbn zeta. destruct (enc_kind_ok E op).
+    + apply records_push; [cbn [add_loc set_loc ocodes]; apply ocodes_with_diag | right; reflexivity].
+    + apply records_same. cbn [set_diag add_loc set_loc ocodes]. apply ocodes_with_diag.
+Qed.
+
 End E.
 
 (** ---------- C16: relocation of a branch and of a data field ---------- *)
@@ -150,8 +204,8 @@ Proof.
   destruct (String.eqb l k); [reflexivity | exact IH].
 Qed.
 
-Lemma gen_branch_reloc E m st dol len delta name l :
-  gen_ocode E m (shift_sym delta st) (dol + delta) len (OJcc name (JLabel l)) = gen_ocode E m st dol len (OJcc name (JLabel l)).
+Lemma gen_branch_reloc E m md st dol len delta name l :
+  gen_ocode E m (shift_sym delta st) (dol + delta) len (OJcc md name (JLabel l)) = gen_ocode E m st dol len (OJcc md name (JLabel l)).
 Proof.
   cbn [gen_ocode]. rewrite lookup_shift. destruct (lookup l st) as [a|]; [|reflexivity]. cbn [option_map].
   replace (a + delta - (dol + delta + len)) with (a - (dol + len)) by lia. reflexivity.
